@@ -60,6 +60,11 @@ pub struct Phase {
     /// busy, as the VFS would report it
     #[serde(default)]
     pub fail_stmt: Option<(u8, u8)>,
+    /// SQLite arm, fault: operation number `.1` of task `.0` is released ALONE and its future is
+    /// DROPPED (the caller was cancelled: client gone, timeout) once `.2` of its statements have
+    /// been executed and the next one is parked at the turnstile
+    #[serde(default)]
+    pub cancel: Option<(u8, u8, u8)>,
 }
 
 #[derive(Serialize, Deserialize, Clone, Debug, PartialEq)]
@@ -77,6 +82,8 @@ enum Ret {
     /// load: None, or Some((marker of the state if the whole state is intact, ttl in ns))
     Loaded(Option<(Option<u32>, i64)>),
     Deleted(usize),
+    /// the caller dropped the operation's future before it returned
+    Cancelled,
 }
 
 #[derive(Clone, Debug)]
@@ -209,6 +216,19 @@ const RELAX_NAMES: [(u8, &str); 2] = [
 fn step(s: &MState, op: &Op, ret: &Ret, now: i64, relax: u8) -> Vec<MState> {
     let same = || vec![s.clone()];
     let none = Vec::new;
+    if let Ret::Cancelled = ret {
+        // the caller went away in the middle: the operation took effect as a whole (with whatever
+        // answer nobody saw) or not at all
+        let mut v = same();
+        for r in [Ret::Ok, Ret::UnknownId, Ret::DuplicateId] {
+            for n in step(s, op, &r, now, relax) {
+                if !v.contains(&n) {
+                    v.push(n);
+                }
+            }
+        }
+        return v;
+    }
     if let Ret::Other(_) = ret {
         // a backend error (only tolerated after an injected statement failure, see `check_phase`):
         // the operation must not have taken effect, not even in part
@@ -428,6 +448,11 @@ struct Shared {
     log: EventLog,
     /// statement failures injected in the current phase
     faults_fired: u32,
+    /// (task, op index) whose future is to be dropped when `cancel` is notified
+    cancel_target: Option<(usize, usize)>,
+    cancel: Rc<tokio::sync::Notify>,
+    /// a connection was left with an open transaction although every operation had returned
+    tx_left_open: bool,
 }
 
 fn op_str(op: &Op) -> String {
@@ -445,6 +470,7 @@ fn op_str(op: &Op) -> String {
 fn ret_str(r: &Ret) -> String {
     match r {
         Ret::Other(e) => format!("Other({})", e.chars().take(60).collect::<String>()),
+        Ret::Cancelled => "Cancelled".into(),
         Ret::Loaded(Some((m, ttl))) => format!("Some(v{}, ttl={}ms)", m.map(|x| x.to_string()).unwrap_or("CORRUPT".into()), ttl / 1_000_000),
         Ret::Loaded(None) => "None".into(),
         o => format!("{o:?}"),
@@ -452,6 +478,7 @@ fn ret_str(r: &Ret) -> String {
 }
 
 async fn task_body(store: Arc<SessionStore>, task: usize, ops: Vec<Op>, sh: Rc<RefCell<Shared>>, mut gate: Option<tokio::sync::mpsc::UnboundedReceiver<u64>>, done: Option<tokio::sync::mpsc::UnboundedSender<usize>>) {
+    let mut op_index = 0usize;
     for op in ops {
         // sqlite arm: the operation counts as invoked when the simulator releases it (the moment
         // the client issues the call); the sequence number comes with the release
@@ -468,11 +495,26 @@ async fn task_body(store: Arc<SessionStore>, task: usize, ops: Vec<Op>, sh: Rc<R
                 q
             }
         };
-        let out = do_op(store.as_ref(), &op).await;
+        let (is_target, cancel) = {
+            let s = sh.borrow();
+            (s.cancel_target == Some((task, op_index)), s.cancel.clone())
+        };
+        op_index += 1;
+        let out = if is_target {
+            tokio::select! {
+                biased;
+                _ = cancel.notified() => Ret::Cancelled,
+                r = do_op(store.as_ref(), &op) => r,
+            }
+        } else {
+            do_op(store.as_ref(), &op).await
+        };
         {
             let mut s = sh.borrow_mut();
             s.seq += 1;
-            let q = s.seq;
+            // a cancelled operation "returns" for the model once the statement it left behind has
+            // been flushed: the simulator fills `ret` in then
+            let q = if out == Ret::Cancelled { 0 } else { s.seq };
             s.log.sched(format_args!("task{task} return {} -> {}", op_str(&op), ret_str(&out)));
             s.events.push(Event { task, op, invoke, ret: q, out });
         }
@@ -529,6 +571,7 @@ async fn run_phase_sqlite(store: Arc<SessionStore>, phase: &Phase, tape: &mut Ta
     let mut remaining: Vec<usize> = phase.tasks.iter().map(|t| t.len()).collect();
     // statements released so far in this phase that could have been failed (see `fail_stmt`)
     let mut failable_seen: u32 = 0;
+    let mut cancelled_in_phase = false;
     // Operations are released in batches (at most one per task). Every SQL statement they issue
     // stops at the turnstile inside `sqlite3_step` (see gate.rs) until the simulator lets it go:
     // the simulator waits until the system is QUIESCENT — every operation in flight is either
@@ -545,6 +588,17 @@ async fn run_phase_sqlite(store: Arc<SessionStore>, phase: &Phase, tape: &mut Ta
         let mut batch: Vec<usize> = cands.iter().copied().filter(|_| tape.chance(1, 2)).collect();
         if batch.is_empty() {
             batch.push(cands[tape.choose(cands.len() as u32) as usize]);
+        }
+        // the operation that is going to be cancelled runs alone (the statement it leaves parked at
+        // the turnstile is then unambiguously its own)
+        let mut cancel_after: Option<u32> = None;
+        if let Some((ct, co, ck)) = phase.cancel {
+            let (ct, co) = (ct as usize, co as usize);
+            if ct < n && remaining[ct] > 0 && phase.tasks[ct].len() - remaining[ct] == co && cancellable(&phase.tasks[ct][co]) {
+                batch = vec![ct];
+                cancel_after = Some(ck as u32);
+                sh.borrow_mut().cancel_target = Some((ct, co));
+            }
         }
         if batch.len() > 1 && tape.chance(1, 2) {
             batch.reverse();
@@ -579,6 +633,8 @@ async fn run_phase_sqlite(store: Arc<SessionStore>, phase: &Phase, tape: &mut Ta
             let _ = gates[*i].send(q);
         }
         let mut done = 0usize;
+        let mut granted_in_batch = 0u32;
+        let mut open_since: Option<std::time::Instant> = None;
         // Harness-error paths only (never part of the event log): a suspicious state must PERSIST in
         // real time before it is declared, because sqlx's worker threads are real threads and a
         // snapshot can catch one between "woken up" and "running" (e.g. just released by the
@@ -601,6 +657,19 @@ async fn run_phase_sqlite(store: Arc<SessionStore>, phase: &Phase, tape: &mut Ta
                     sh.borrow_mut().log.sched(format_args!("grant (background) {}", snap.parked[k].chars().take(40).collect::<String>()));
                     crate::gate::grant_and_wait(&snap.parked[k]);
                 } else {
+                    // Every operation has returned (or was cancelled), nothing is parked, nothing moves,
+                    // and yet a connection sits inside a transaction: if that persists, nobody is ever
+                    // going to end it.
+                    if snap.moving == 0 && snap.lock_waiting == 0 && snap.parked.is_empty() && snap.orphan_transactions > 0 {
+                        if open_since.get_or_insert_with(std::time::Instant::now).elapsed() > std::time::Duration::from_millis(1500) {
+                            let mut s = sh.borrow_mut();
+                            s.log.sched(format_args!("a connection was left inside a transaction"));
+                            s.tx_left_open = true;
+                            break;
+                        }
+                    } else {
+                        open_since = None;
+                    }
                     tokio::task::yield_now().await;
                 }
                 continue;
@@ -623,6 +692,28 @@ async fn run_phase_sqlite(store: Arc<SessionStore>, phase: &Phase, tape: &mut Ta
             // nothing has moved for a while in real time, every thread is parked, and the parked
             // statements can account for every operation in flight, the system is taken to be
             // quiescent. (Never happens on the unchanged tree; a harness error would hide the change.)
+            if let Some(k) = cancel_after {
+                if running == 0 && snap.orphan_transactions == 0 && op_statements == 1 && lock_waiting == 0 && done == 0 && granted_in_batch == k {
+                    // the caller goes away: its future is dropped while its next statement is parked
+                    {
+                        let mut s = sh.borrow_mut();
+                        s.log.sched(format_args!("CANCEL: the operation's future is dropped after {k} statement(s); parked: {}", waiting.iter().map(|w| w.chars().take(30).collect::<String>()).collect::<Vec<_>>().join(" | ")));
+                        s.cancel.notify_one();
+                    }
+                    cancel_after = None;
+                    cancelled_in_phase = true;
+                    let t0 = std::time::Instant::now();
+                    while done_rx.try_recv().is_err() {
+                        tokio::task::yield_now().await;
+                        if t0.elapsed() > std::time::Duration::from_secs(60) {
+                            simcore::driver::harness_error("storesim(sqlite): a cancelled operation never reported back");
+                        }
+                    }
+                    done += 1;
+                    sh.borrow_mut().cancel_target = None;
+                    continue;
+                }
+            }
             let strict = op_statements + lock_waiting as usize + done == batch.len();
             let loose = !strict && waiting.len() + lock_waiting as usize + done >= batch.len() && stuck_since.map(|t| t.elapsed() > std::time::Duration::from_millis(400)).unwrap_or(false);
             if running == 0 && snap.orphan_transactions == 0 && !waiting.is_empty() && (strict || loose) {
@@ -651,6 +742,7 @@ async fn run_phase_sqlite(store: Arc<SessionStore>, phase: &Phase, tape: &mut Ta
                     }
                     failable_seen += 1;
                 }
+                granted_in_batch += 1;
                 if fail.is_some() {
                     crate::gate::grant_and_wait_with(&waiting[k], fail);
                 } else {
@@ -675,11 +767,36 @@ async fn run_phase_sqlite(store: Arc<SessionStore>, phase: &Phase, tape: &mut Ta
                 }
             }
         }
+        if cancelled_in_phase {
+            // the statement the cancelled operation had left behind has been flushed by now: this
+            // is when the operation is over as far as the model is concerned
+            let mut s = sh.borrow_mut();
+            let Shared { seq, events, .. } = &mut *s;
+            for e in events.iter_mut().filter(|e| e.out == Ret::Cancelled && e.ret == 0) {
+                *seq += 1;
+                e.ret = *seq;
+            }
+        }
+        if sh.borrow().tx_left_open {
+            break;
+        }
     }
     drop(gates);
+    if sh.borrow().tx_left_open {
+        for h in handles {
+            h.abort();
+        }
+        return;
+    }
     for h in handles {
         let _ = h.await;
     }
+}
+
+/// Loads and the sweeping `delete_expired` are never cancelled (nothing to learn: a read has no
+/// effect, the sweep reports a count nobody would see).
+fn cancellable(op: &Op) -> bool {
+    matches!(op, Op::Create { .. } | Op::Update { .. } | Op::UpdateTtl { .. } | Op::Delete { .. } | Op::ChangeId { .. })
 }
 
 fn viol(inv: &str, sig: String, detail: String) -> Violation {
@@ -691,7 +808,7 @@ pub fn execute(script: &Script, tape: &mut Tape, keep_log: bool) -> RunOut {
     let t0 = seams::EPOCH_S * 1_000_000_000;
     seams::set_clock_ns(t0, 0);
     seams::reset_clock_reads();
-    let sh = Rc::new(RefCell::new(Shared { seq: 0, events: Vec::new(), log: EventLog::new(keep_log || std::env::var("VERIF_KEEP_LOG").is_ok()), faults_fired: 0 }));
+    let sh = Rc::new(RefCell::new(Shared { seq: 0, events: Vec::new(), log: EventLog::new(keep_log || std::env::var("VERIF_KEEP_LOG").is_ok()), faults_fired: 0, cancel_target: None, cancel: Rc::new(tokio::sync::Notify::new()), tx_left_open: false }));
     let sqlite = script.backend == "sqlite";
     let mut counters: BTreeMap<String, u64> = BTreeMap::new();
     let mut violations: Vec<Violation> = Vec::new();
@@ -871,6 +988,17 @@ pub fn execute(script: &Script, tape: &mut Tape, keep_log: bool) -> RunOut {
                 let now = seams::clock_ns();
                 sh2.borrow_mut().log.ev(format_args!("phase{pi} t={}ms", (now - t0) / 1_000_000));
                 run_phase_sqlite(store.clone(), phase, tape, &sh2).await;
+                if sh2.borrow().tx_left_open {
+                    violations.push(viol(
+                        "no-transaction-left-open",
+                        format!("sqlite a connection stays inside a transaction after [{}]", phase.tasks.iter().flatten().map(op_kind).collect::<Vec<_>>().join(",")),
+                        format!("phase{pi}: every operation had returned or been cancelled, nothing was running or parked, and a pooled connection was still inside an open transaction (cancel={:?}): whatever the next callers write through that connection is never committed", phase.cancel),
+                    ));
+                    break;
+                }
+                if phase.cancel.is_some() && sh2.borrow().events.iter().any(|e| e.out == Ret::Cancelled) {
+                    *counters.entry("fault_operation_cancelled".to_string()).or_insert(0) += 1;
+                }
                 let evs = std::mem::take(&mut sh2.borrow_mut().events);
                 if !check_phase(pi, phase, evs, now, &mut possible, &mut violations, &mut counters, &mut states) {
                     break;
@@ -927,6 +1055,7 @@ fn ret_kind(r: &Ret) -> &'static str {
         Ret::UnknownId => "UnknownId",
         Ret::DuplicateId => "DuplicateId",
         Ret::Other(_) => "Other",
+        Ret::Cancelled => "Cancelled",
         Ret::Loaded(None) => "None",
         Ret::Loaded(Some(_)) => "Some",
         Ret::Deleted(_) => "n",
@@ -958,7 +1087,7 @@ impl Sim for StoreSim {
                 "sqlite arm: all instants and TTLs are whole seconds, so the store's whole-second deadlines introduce no rounding ambiguity".into(),
                 "sqlx's worker threads are real OS threads; every SQL statement stops at a link-time turnstile in sqlite3_step and is released by the tape only when the system is quiescent, so statement-level interleavings are explored and replay exactly (verified by the double-run diff); only the first step of a statement is a scheduling point".into(),
             ],
-            fault_counters: vec!["fault_clock_jump_back".into(), "fault_sqlite_statement_failed".into()],
+            fault_counters: vec!["fault_clock_jump_back".into(), "fault_sqlite_statement_failed".into(), "fault_operation_cancelled".into()],
             expected_probes: vec!["op_failed_with_other_after_statement_fault".into(), "sqlite_statement_failed_inside_transaction".into(), "op_exactly_at_deadline".into(), "op_on_expired_record".into(), "runs_with_overlapping_operations".into(), "lock_contended".into(), "phase_with_several_possible_outcomes".into(), "runs_sqlite".into(), "runs_memory".into()],
         }
     }
@@ -1030,7 +1159,7 @@ impl Sim for StoreSim {
                 }
                 tasks.push(ops);
             }
-            phases.push(Phase { advance_ms, tasks, fail_stmt: None });
+            phases.push(Phase { advance_ms, tasks, fail_stmt: None, cancel: None });
         }
         let _ = has_delete_expired;
         // late draw (everything above is the same function of the seed as before): one SQLite run
@@ -1038,6 +1167,14 @@ impl Sim for StoreSim {
         if sqlite && rng.chance(1, 3) {
             let pi = rng.usize(0, phases.len() - 1);
             phases[pi].fail_stmt = Some((rng.below(6) as u8, rng.below(3) as u8));
+        }
+        // late draw: one SQLite run in four cancels an operation in mid-flight (the caller's future is
+        // dropped between two of its statements)
+        if sqlite && rng.chance(1, 4) {
+            let pi = rng.usize(0, phases.len() - 1);
+            let t = rng.usize(0, phases[pi].tasks.len() - 1);
+            let o = rng.usize(0, phases[pi].tasks[t].len() - 1);
+            phases[pi].cancel = Some((t as u8, o as u8, rng.below(4) as u8));
         }
         Script { backend: if sqlite { "sqlite".into() } else { "memory".into() }, phases }
     }
@@ -1092,7 +1229,7 @@ impl Sim for StoreSim {
                     }
                     let adv = t.phases[i].advance_ms;
                     t.phases[i].advance_ms = 0;
-                    t.phases.insert(i, Phase { advance_ms: adv, tasks: vec![vec![op]], fail_stmt: None });
+                    t.phases.insert(i, Phase { advance_ms: adv, tasks: vec![vec![op]], fail_stmt: None, cancel: None });
                     c.push(t);
                 }
             }
@@ -1100,6 +1237,16 @@ impl Sim for StoreSim {
                 let mut t = s.clone();
                 t.phases[i].advance_ms = 0;
                 c.push(t);
+            }
+            if let Some((ct, co, ck)) = s.phases[i].cancel {
+                let mut t = s.clone();
+                t.phases[i].cancel = None;
+                c.push(t);
+                if ck > 0 {
+                    let mut t = s.clone();
+                    t.phases[i].cancel = Some((ct, co, ck - 1));
+                    c.push(t);
+                }
             }
             if let Some((at, code)) = s.phases[i].fail_stmt {
                 let mut t = s.clone();
